@@ -73,8 +73,9 @@ _seq("C01", "no false negatives",
      "bounded-exhaustive input and history enumeration against a reference model (explicit enumeration, no sampling)")
 _seq("C02", "exact results",
      "same enumeration as C01 with the exactness oracle: result multiset ⊆ stored, reference-verified rows, equality without prefilter and the whole-block union rule with prefilter",
-     "as C01; rows with duplicate raw-JSON keys are identified with their stored row (their materialisation is C03's subject)",
-     "bounded-exhaustive input and history enumeration against a reference model (explicit enumeration, no sampling)")
+     "as C01; rows with duplicate raw-JSON keys are identified with their stored row (their materialisation is C03's subject); scheduler part: two concurrent queries over pooled scan buffers (deterministic LIFO pool, Pool.Get/Put are scheduling points) must each return exactly the stored matching multiset",
+     "bounded-exhaustive input and history enumeration against a reference model (explicit enumeration, no sampling); stateless model checking of two concurrent queries under the controlled scheduler",
+     extra_parts=[{"engine": "sched", "family": "C03", "budget": {"quick": 100, "thorough": 900}}], budget={"quick": 200, "thorough": 1800})
 _seq("C23", "statistics account for every block once",
      "per-block accounting rules evaluated on the Stats of every query of the C01 enumeration, against block contents read back through the public helpers",
      "sweep part: fault-free completions; fault part: a failure at every DataStore call position of 10 queries x 5 layouts x concurrency {1,4}; scheduler part: queries ended by Close or cancellation while a block scan is unfinished (450-row block, 66-row block, injected faults) - at-most-once, processed source of every returned row, zero counts for skipped blocks; all-or-none per file is not asserted for queries ended by Close or cancellation (blocks never reached are not evaluated blocks)",
@@ -122,7 +123,8 @@ _seq("C26", "filters meet the configured rate",
 _seq("C06", "acknowledgements are truthful",
      "a 4-batch history is re-run with a failure at every store call position (quick: singly; thorough: every ordered pair) over 4 store variants; after two further fault-free flushes and a Merge the rows visible on this and on a fresh engine must equal the rows of nil-acknowledged batches",
      "plain build, default schedule (store calls of a sequential history are deterministic); MetaStore with atomic Update",
-     "exhaustive fault-position enumeration over a recorded history", level="fault_enumeration")
+     "exhaustive fault-position enumeration over a recorded history; stateless model checking of concurrent ingest/Flush callers (C07 family: every nil acknowledgement is checked against the committed rows at that instant)", level="fault_enumeration",
+     extra_parts=[{"engine": "sched", "family": "C07", "budget": {"quick": 100, "thorough": 1200}}], budget={"quick": 200, "thorough": 2400})
 _seq("C13", "merge is all-or-nothing",
      "Merge over 3-4 files in 1-2 groups is re-run with a failure at every position of every store call kind (iterator, CreateFile, OpenFile, Seek, Read, Write, Close, Abort, Update, TombstoneFile), singly and in pairs; committed-xor-unchanged oracle on both stores, call log, return values and query answers; single-flight with a Merge held inside CreateFile",
      "plain build; MetaStore with atomic Update; concurrent part (scheduler engine): 2-3 overlapping Merge calls over tombstone-deletes / deferred-GC / object-like DataStores and both in-memory MetaStores, preemption bound 1 (2 thorough): each returns nil or ErrMergeInProgress, at least one commits, content stays exactly once",
